@@ -1,6 +1,6 @@
 ----------------------------- MODULE ServiceMC -----------------------------
 EXTENDS Service
 (* ghosts and counters of environment budgets are part of the state; hide what only records *)
-View == <<running, listener, lstate, counter, wg, names, spc, sl, tmo, acc, sret, rounds, expiries,
+View == <<running, listener, lstate, counter, wg, names, cancelled, spc, sl, tmo, acc, sret, rounds, expiries,
           cst, cl, sdpc, bdpc, rgpc, rgarg, rgret, gate, g_sdWaiting, g_sdDoneAt, g_servedEp>>
 =============================================================================
